@@ -1,6 +1,7 @@
 import GoatSpec.Proto
 import GoatSpec.Mark
 import GoatSpec.MarkSpec
+import GoatSpec.Layout
 import GoatSpec.Drv.Text
 import GoatSpec.Splice
 import GoatSpec.Extracted
@@ -345,8 +346,25 @@ def mkLoaded (f : File) : Loaded :=
     reached := evs.filterMap (fun e => match e with | .check l => some l | _ => none),
     reachedSingles := evs.filterMap (fun e => match e with | .single l _ => some l | _ => none) }
 
+/-- judge:wf — does the loaded file meet the layout hypothesis of C01.marks_legal -/
+def judgeWf (f : File) : String :=
+  if wfFile f then "ok" else "skip wf:" ++ ",".intercalate (wfReasons f)
+
+/-- judge:wflegal <gran> <ranges> — run-time cross-check of C01.marks_legal on the model's own
+    answer: on a well-formed file every multi-line position is a statement boundary -/
+def judgeWfLegal (f : File) (toks : List String) : String :=
+  match (do let g ← pGran; let rs ← many pair; pure (g, rs) : P (Gran × List (Nat × Nat))).run toks with
+  | .error e => s!"error parse {e.replace " " "_"}"
+  | .ok ((g, rs), _) =>
+    if !wfFile f then "skip" else
+    match marks f g rs with
+    | .error _ => "skip"
+    | .ok m => if m.multi.all (legalLine f) then "ok" else "bad C01:theorem-marks_legal-contradicted"
+
 def handleMarkJudge (cur : Option Loaded) (toks : List String) : Option String :=
   match toks, cur with
+  | "judge:wf" :: _, some l => some (judgeWf l.c.f)
+  | "judge:wflegal" :: rest, some l => some (judgeWfLegal l.c.f rest)
   | "judge:marks" :: rest, some l => some (judgeMarks l.c l.reached l.reachedSingles rest)
   | "debug:marks" :: rest, some l => some (judgeMarks l.c l.reached l.reachedSingles ("debug" :: rest))
   | "judge:marks" :: _, none => some "error no-file-loaded"
